@@ -136,6 +136,8 @@ func runC03(c *core.Ctx, ck *Check) {
 				return gen.CarryNum(r)
 			case 1:
 				return gen.DateNum(r, false)
+			case 3, 4:
+				return gen.LogNum(r, 31)
 			case 2:
 				if n := gen.EcoNum(e.Name, r); n != "" && len(n) <= 9 && strings.TrimLeft(n, "0") == n {
 					return n
